@@ -348,6 +348,33 @@ def set_path(node, path, val):
     for k in path[:-1]: node = node[k]
     node[path[-1]] = val
 
+def cbor_item_end(bs, off, depth=0):
+    """End offset of the well-formed item starting at off, or None. Used only to cut sequences at item boundaries while shrinking."""
+    if off >= len(bs) or depth > 3000: return None
+    ib = bs[off]; major, ai = ib >> 5, ib & 31
+    if ai < 24: arg, hl = ai, 1
+    elif ai == 24: arg, hl = (bs[off + 1] if off + 1 < len(bs) else None), 2
+    elif ai == 25: arg, hl = (int.from_bytes(bs[off + 1:off + 3], 'big') if off + 3 <= len(bs) else None), 3
+    elif ai == 26: arg, hl = (int.from_bytes(bs[off + 1:off + 5], 'big') if off + 5 <= len(bs) else None), 5
+    elif ai == 27: arg, hl = (int.from_bytes(bs[off + 1:off + 9], 'big') if off + 9 <= len(bs) else None), 9
+    elif ai == 31 and major in (2, 3, 4, 5):
+        p = off + 1
+        while p < len(bs) and bs[p] != 0xff:
+            p = cbor_item_end(bs, p, depth + 1)
+            if p is None: return None
+        return p + 1 if p < len(bs) else None
+    else: return None
+    if arg is None: return None
+    if major in (0, 1, 7): return off + hl
+    if major in (2, 3): return off + hl + arg if off + hl + arg <= len(bs) else None
+    if major == 6: return cbor_item_end(bs, off + hl, depth + 1)
+    n = arg * (2 if major == 5 else 1); p = off + hl
+    if n > len(bs): return None
+    for _ in range(n):
+        p = cbor_item_end(bs, p, depth + 1)
+        if p is None: return None
+    return p
+
 def shrink(exe, plan, cls, tmpdir, budget_s=60, budget_n=400):
     """Greedy/ddmin reduction keeping the violation class constant. Each candidate runs in a fresh process."""
     t0 = time.time(); tried = [0]
@@ -389,6 +416,39 @@ def shrink(exe, plan, cls, tmpdir, budget_s=60, budget_n=400):
                         if nv == v: continue
                         cand = json.loads(json.dumps(cur)); get_path(cand, path)[oi][fi] = nv
                         if still(cand): cur = cand; ops = get_path(cur, path); progress = True; break
+        # 2b. shorten byte strings carried as hex (streams): remove byte ranges, then try to zero bytes
+        def hex_paths(node, path=()):
+            out = []
+            if isinstance(node, dict):
+                for k, v in node.items():
+                    if k == 'hex' and isinstance(v, str): out.append(path + (k,))
+                    else: out += hex_paths(v, path + (k,))
+            elif isinstance(node, list):
+                for i, v in enumerate(node): out += hex_paths(v, path + (i,))
+            return out
+        for path in hex_paths(cur):
+            # first: drop whole leading items of a CBOR sequence (keeps the rest aligned)
+            for _ in range(12):
+                bs = bytes.fromhex(get_path(cur, path)); bounds = []; off = 0
+                while off < len(bs):
+                    e = cbor_item_end(bs, off)
+                    if e is None: break
+                    bounds.append(e); off = e
+                dropped = False
+                for b in reversed(bounds):
+                    if b >= len(bs): continue
+                    cand = json.loads(json.dumps(cur)); set_path(cand, path, bs[b:].hex())
+                    if still(cand): cur = cand; progress = True; dropped = True; break
+                if not dropped: break
+            hx = get_path(cur, path); n = len(hx) // 2; chunk = max(1, n // 2)
+            while chunk >= 1 and n > 1:
+                i = 0
+                while i < n and n > 1:
+                    cand = json.loads(json.dumps(cur)); set_path(cand, path, hx[:2 * i] + hx[2 * (i + chunk):])
+                    if len(get_path(cand, path)) >= 2 and still(cand): cur = cand; hx = get_path(cur, path); n = len(hx) // 2; progress = True
+                    else: i += chunk
+                if chunk == 1: break
+                chunk = max(1, chunk // 2)
         # 3. drop optional knobs / close points
         for path in list_paths(cur):
             if path[-1] != 'conns': continue
